@@ -292,20 +292,26 @@ HOST_ALLOWED = {
 }
 
 
+HOST_MODULES = ('truc::record::type_resolver', 'truc::record::type_name')
+
+
 def truc_rule_host(ctx, crate):
+    """H-HOST: the host's own layout / type names are queried only inside the resolver and
+    name-printer modules (where the host resolver and the table registration live)."""
     for b in crate.bodies:
         for bb, t in b.calls():
             p = callee_path(t)
             if p in HOST_QUERIES:
                 owner = b.path
                 tys = callee_ty_args(t)
-                if owner in HOST_ALLOWED:
-                    ctx.inst('H-HOST', '%s::<%s> in %s (%s)' % (p, ','.join(tys), owner, HOST_ALLOWED[owner]))
+                mod = b.module or ''
+                if any(mod == m or mod.startswith(m + '::') for m in HOST_MODULES):
+                    ctx.inst('H-HOST', '%s::<%s> in %s (resolver / name printer module)' % (p, ','.join(tys), owner))
                 elif owner == T + 'RecordDefinition::<truc::record::definition::NativeDatumDetails>::max_type_align' and p == 'core::mem::align_of' and tys == ['()']:
                     ctx.inst('H-HOST', 'align_of::<()> in max_type_align (neutral element for an empty definition)')
                 else:
-                    ctx.add(['C18'], 'H-HOST', owner, '`%s::<%s>` is called at %s: the host\'s own layout leaks into the definition instead of the resolver\'s answer' % (p, ','.join(tys), fmt_span(t['span'])), key='%s|%s' % (owner, p))
-    ctx.floor(['C18'], 'H-HOST', 8)
+                    ctx.add(['C18'], 'H-HOST', owner, '`%s::<%s>` is called at %s, outside the type resolver module: the host\'s own layout leaks into the definition instead of the resolver\'s answer' % (p, ','.join(tys), fmt_span(t['span'])), key='%s|%s' % (owner, p))
+    ctx.floor(['C18'], 'H-HOST', 5)
 
 
 def origin_class(crate, b, defs, op, depth=0):
@@ -471,7 +477,7 @@ def truc_rule_table(ctx, crate):
                     ctx.inst('K-NORM', '%s: key of %s is %s(..)' % (b.path.split('::')[-1], p.split('::')[-1], src.split('::')[-1]))
                 else:
                     ctx.add(['C17', 'C18'], 'K-NORM', b.key, 'the type table is accessed (%s) at %s with a key that does not come from the normaliser (%s)' % (p.split('::')[-1], where, src or term[0]), key='%s|%s' % (b.key, p.split('::')[-1]))
-    ctx.floor(['C17'], 'K-NORM', 5)
+    ctx.floor(['C17'], 'K-NORM', 4)
     # H-TABLE: lookups return the stored entry (clone of the BTreeMap::get result, no field write)
     for path, field in (('<truc::record::type_resolver::StaticTypeResolver as truc::record::type_resolver::TypeResolver>::type_info', 'info'),
                         ('<truc::record::type_resolver::StaticTypeResolver as truc::record::type_resolver::TypeResolver>::dynamic_type_info', None)):
@@ -508,17 +514,18 @@ def truc_rule_table(ctx, crate):
         else:
             ctx.inst('H-TABLE', '%s returns %sclone of the BTreeMap::get result' % (path.split('::')[-1], ('.%s.' % field) if field else '.'))
     # registration stores {name: normalised name, size_of::<T>, align_of::<T>} and the right flag
-    for name, flag in (('add_type', 0), ('add_type_allow_uninit', 1)):
-        b = crate.body(R + 'StaticTypeResolver::' + name)
-        if b is None:
-            ctx.add(['C18'], 'H-TABLE', R + name, 'function not found (anchor lost)', key='anchor|%s' % name)
+    # (directly or through a helper of the module that takes the flag as a parameter)
+    builders = {}        # body path -> ('const', v) | ('param', k) for the flag of the DynamicTypeInfo it builds
+    for b in crate.bodies:
+        if not (b.module or '').startswith('truc::record::type_resolver') or b.promoted is not None:
             continue
-        defs = local_defs(b)
-        found = False
+        if (b.d.get('span') or {}).get('exp') or b.d.get('impl_trait') in ('core::clone::Clone', 'serde_core::de::Visitor', 'serde_core::de::Deserialize'):
+            continue      # derived Clone / Deserialize copy or decode an entry, they do not register one
+        defs = None
         for _, _, s in b.statements():
             if s['k'] == 'assign' and s['rv']['k'] == 'aggregate' and s['rv'].get('adt') == R + 'DynamicTypeInfo':
+                defs = defs or local_defs(b)
                 vals = dict(zip(s['rv']['field_names'], s['rv']['fields']))
-                fl = op_int(vals['allow_uninit'])
                 info = trace_value(b, defs, vals['info'])
                 okinfo = info[-1][0] == 'rv' and info[-1][1].get('adt') == R + 'TypeInfo'
                 if okinfo:
@@ -527,13 +534,33 @@ def truc_rule_table(ctx, crate):
                     al = origin_class(crate, b, defs, iv['align'])
                     nm = origin_class(crate, b, defs, iv['name'])
                     okinfo = sz == {'call:core::mem::size_of'} and al == {'call:core::mem::align_of'} and all('truc_type_name' in x for x in nm)
-                if fl != flag or not okinfo:
-                    ctx.add(['C18'], 'H-TABLE', b.key, '%s registers something else than {normalised name, size_of::<T>(), align_of::<T>()} with flag %d' % (name, flag), key='%s|register' % name)
+                if not okinfo:
+                    ctx.add(['C18'], 'H-TABLE', b.key, 'a table entry is built with something else than {normalised name, size_of::<T>(), align_of::<T>()}', key='%s|entry' % b.path.split('::')[-1])
+                    continue
+                fl = trace_value(b, defs, vals['allow_uninit'])[-1]
+                if fl[0] == 'const' and 'int' in fl[1]:
+                    builders[b.path] = ('const', fl[1]['int'])
+                elif fl[0] == 'param':
+                    builders[b.path] = ('param', fl[1])
                 else:
-                    found = True
-                    ctx.inst('H-TABLE', '%s registers {truc_type_name::<T>(), size_of::<T>(), align_of::<T>(), allow_uninit=%d}' % (name, flag))
-        if not found and not any(f.key.endswith('%s|register' % name) for f in ctx.findings):
-            ctx.add(['C18'], 'H-TABLE', b.key, '%s does not build a DynamicTypeInfo' % name, key='%s|register' % name)
+                    ctx.add(['C18'], 'H-TABLE', b.key, 'the may-be-uninitialised flag of a table entry has an unclear origin', key='%s|flag' % b.path.split('::')[-1])
+    for name, flag in (('add_type', 0), ('add_type_allow_uninit', 1)):
+        b = crate.body(R + 'StaticTypeResolver::' + name)
+        if b is None:
+            ctx.add(['C18'], 'H-TABLE', R + name, 'function not found (anchor lost)', key='anchor|%s' % name)
+            continue
+        got = None
+        if builders.get(b.path, (None,))[0] == 'const':
+            got = builders[b.path][1]
+        else:
+            for bb, t in b.calls():
+                h = builders.get(callee_path(t))
+                if h and h[0] == 'param':
+                    got = op_int(t['args'][h[1] - 1])
+        if got != flag:
+            ctx.add(['C18'], 'H-TABLE', b.key, '%s registers an entry with flag %s, expected %d' % (name, got, flag), key='%s|register' % name)
+        else:
+            ctx.inst('H-TABLE', '%s registers {truc_type_name::<T>(), size_of::<T>(), align_of::<T>(), allow_uninit=%d}' % (name, flag))
     # H-SERDE: TypeInfo / DynamicTypeInfo derive both directions, no serde attribute
     for ty in ('TypeInfo', 'DynamicTypeInfo'):
         adt = crate.adts.get(R + ty)
